@@ -99,6 +99,7 @@ fn lines() {
                 std::process::exit(0);
             }
             "wrt" => segfile::run_wrt(&toks[1..]),
+            "wrn" => segfile::run_wrn(&toks[1..]),
             t => {
                 eprintln!("unknown tag {}", t);
                 std::process::exit(2);
